@@ -25,6 +25,30 @@ def voidCancelPipeline (e : Option Nat) (ok : Bool) (v : Nat) : Option Nat :=
 def voidCancelPipelineOld (e : Option Nat) (ok : Bool) (v : Nat) : Option Nat :=
   voidReturnIs (callerOutput (cancelRecords e) ok v).2
 
+/-! ### several cancels in one call (round 5b)
+
+`errorx.AtomicError` keeps the error in an `atomic.Value`: a second `Store` whose value has ANOTHER dynamic type
+panics ("store of inconsistently typed value").  An error is (code, dynamic type); `none` as a result = that runtime
+panic.  `cancel` is wrapped into `once(…)`: of all the cancel calls of one call only the first reaches the cell. -/
+
+abbrev TErr := Nat × Nat     -- (error code, tag of the dynamic type)
+
+/-- one `atomic.Value.Store` (through `AtomicError.Set` with a non-nil error). -/
+def aeStoreTyped (cur : Option TErr) (e : TErr) : Option (Option TErr) :=
+  match cur with
+  | none => some (some e)
+  | some c => if c.2 = e.2 then some (some e) else none
+
+/-- the cell after the cancel calls `es` of one call, cancel wrapped into `once` (the code as it is). -/
+def cancelsWithOnce (es : List TErr) : Option (Option TErr) :=
+  match es with
+  | [] => some none
+  | e :: _ => aeStoreTyped none e
+
+/-- the same without the wrapper (seeded C10-8): every cancel call stores. -/
+def cancelsWithoutOnce (es : List TErr) : Option (Option TErr) :=
+  es.foldlM aeStoreTyped none
+
 /-! ### the building blocks on their own (ops `unit …` of the harness) -/
 
 /-- `guardedWriter.Write`: the value is dropped iff the context is over or `done` is closed — the guard of the model's
